@@ -1,5 +1,6 @@
 import BiotiteModel.Proofs.C14
 import BiotiteModel.Gen.C14
+import BiotiteModel.Proofs.C14Expected
 /-!
 # C14 — property theorems (cell-list neighbour search is exact)
 
@@ -634,76 +635,58 @@ theorem C14_gen_window : Gen.C14.window =
 /-- `_get_cell_index` pairs x/y/z with `_min_coord[0/1/2]`; the filter is `sq_dist <= sq_radius`;
 `cell_count` adds 1; the buffer length is `(2r+1)**3 * max_cell_length`; 3 images per axis. -/
 theorem C14_gen_constants :
-    Gen.C14.cellIndex = [("i", "x", 0), ("j", "y", 1), ("k", "z", 2)] ∧ Gen.C14.distCmp = "<=" ∧
+    Gen.C14.cellIndex = [(3, 0, 0), (4, 1, 1), (5, 2, 2)] ∧ Gen.C14.distCmp = "<=" ∧
     Gen.C14.cellCountPlus = 1 ∧ Gen.C14.bufLen = (2, 1, 3) ∧ Gen.C14.repeatAmount = 1 ∧
     shifts.length = (2 * Gen.C14.repeatAmount + 1) ^ 3 := by
   decide
 
-/-! ## the source text of the modelled functions, regenerated on every run (`Gen/C14.lean`)
+/-! ## the modelled functions as they are in /repo now = the snapshot `Proofs/C14Expected.lean` (alpha-normalised)
 
-Each theorem states: the function as it is in /repo now = the function the hand-written model, the adapter and the
-oracle were written against (header incl. default argument values; every statement with its indentation; comments,
-docstrings, blank lines and the text of string literals do not matter).  A changed guard, operator, constant, default,
-exception class, dtype, loop domain, order of checks or an added early exit breaks the obligation for all inputs at once. -/
+A changed guard, operator, constant, default, exception class, dtype, loop domain, order of checks or an added early exit
+breaks the obligation for all inputs at once; renaming locals / private helpers / private attributes, comments, docstrings,
+message texts, annotations do not. -/
 
-/-- `__cinit__` and `_check_coord`: default arguments `periodic=False, box=None, selection=None`; order of the steps the model `mk`/`mkG`/`chooseBox` follows — AtomArrayStack `TypeError`, `_check_coord(coord)` / `_check_coord(coord[selection])`, then the periodic block (explicit `box` first, then `atom_array.box`, `(3,3)` shape check, neither -> `ValueError`, NaN box `ValueError`, `move_inside_box`, `repeat_box_coord`), then `cell_size <= 0` -> `ValueError`, `nanmin`/`nanmax` over all coordinates, `cell_count = ((max-min)/cell_size + 1).astype(int)`, selection length `IndexError`, binning of `self._selection[atom_array_i % self._orig_length]` atoms with `_get_cell_index`, `_max_cell_length`; `_check_coord`: ndim, empty, 3 columns, finite (all `ValueError`). -/
+/-- `__cinit__` (+ the coordinate validator and the initialised-cells test it calls): default arguments `periodic=False, box=None, selection=None`; order of the steps the model `mk`/`mkG`/`chooseBox` follows — AtomArrayStack `TypeError`, validator on `coord` / `coord[selection]`, then the periodic block (explicit `box` first, then `atom_array.box`, `(3,3)` shape check, neither -> `ValueError`, NaN box `ValueError`, `move_inside_box`, `repeat_box_coord`), then `cell_size <= 0` -> `ValueError`, `nanmin`/`nanmax` over all coordinates, `cell_count = ((max-min)/cell_size + 1).astype(int)`, selection length `IndexError`, binning of `selection[i % orig_length]` atoms with the cell-index helper, maximum cell length; validator: ndim, empty, 3 columns, finite (all `ValueError`). -/
 theorem C14_gen_src_constructor :
-    Gen.C14.pyx_cinit =
-      ⟨"def __cinit__(self, atom_array not None, float cell_size, bint periodic=False, box=None, np.ndarray selection=None):", [(4, "cdef float32 x, y, z"), (4, "cdef int i, j, k"), (4, "cdef int atom_array_i"), (4, "cdef int* cell_ptr = NULL"), (4, "cdef int length"), (4, "if isinstance(atom_array, AtomArrayStack):"), (8, "raise TypeError(S)"), (4, "coord = to_coord(atom_array)"), (4, "self._orig_length = coord.shape[0]"), (4, "self._box = None"), (4, "if selection is None:"), (8, "_check_coord(coord)"), (4, "else:"), (8, "_check_coord(coord[selection])"), (4, "if periodic:"), (8, "if box is not None:"), (12, "self._box = box"), (8, "elif atom_array.box is not None:"), (12, "if atom_array.box.shape != (3,3):"), (16, "raise ValueError( S )"), (12, "self._box = atom_array.box"), (8, "else:"), (12, "raise ValueError( S )"), (8, "if np.isnan(self._box).any():"), (12, "raise ValueError(S)"), (8, "coord = move_inside_box(coord, self._box)"), (8, "coord, indices = repeat_box_coord(coord, self._box)"), (4, "if self._has_initialized_cells():"), (8, "raise Exception(S)"), (4, "self._cells = None"), (4, "if cell_size <= 0:"), (8, "raise ValueError(S)"), (4, "self._periodic = periodic"), (4, "self._coord = coord.astype(np.float32, copy=False)"), (4, "self._cellsize = cell_size"), (4, "min_coord = np.nanmin(coord, axis=0).astype(np.float32)"), (4, "max_coord = np.nanmax(coord, axis=0).astype(np.float32)"), (4, "self._min_coord = min_coord"), (4, "self._max_coord = max_coord"), (4, "cell_count = (((max_coord - min_coord) / cell_size) +1).astype(int)"), (4, "if self._periodic:"), (8, "self._orig_min_coord = np.nanmin(coord[:self._orig_length], axis=0) .astype(np.float32)"), (8, "self._orig_max_coord = np.nanmax(coord[:self._orig_length], axis=0) .astype(np.float32)"), (4, "self._cells = np.zeros(cell_count, dtype=np.uint64)"), (4, "self._cell_length = np.zeros(cell_count, dtype=np.int32)"), (4, "if selection is not None:"), (8, "self._has_selection = True"), (8, "self._selection = np.frombuffer(selection, dtype=np.uint8)"), (8, "if self._selection.shape[0] != self._orig_length:"), (12, "raise IndexError( S S )"), (4, "else:"), (8, "self._has_selection = False"), (4, "for atom_array_i in range(self._coord.shape[0]):"), (8, "if not self._has_selection or self._selection[atom_array_i % self._orig_length]:"), (16, "x = self._coord[atom_array_i, 0]"), (16, "y = self._coord[atom_array_i, 1]"), (16, "z = self._coord[atom_array_i, 2]"), (16, "self._get_cell_index(x, y, z, &i, &j, &k)"), (16, "length = self._cell_length[i,j,k] + 1"), (16, "cell_ptr = <int*>self._cells[i,j,k]"), (16, "cell_ptr = <int*>realloc(cell_ptr, length * sizeof(int))"), (16, "if not cell_ptr:"), (20, "raise MemoryError()"), (16, "if length > self._max_cell_length:"), (20, "self._max_cell_length = length"), (16, "cell_ptr[length-1] = atom_array_i"), (16, "self._cell_length[i,j,k] = length"), (16, "self._cells[i,j,k] = <ptr> cell_ptr")]⟩ ∧
-    Gen.C14.pyx_priv_check_coord =
-      ⟨"def _check_coord(coord):", [(4, "if coord.ndim != 2:"), (8, "raise ValueError(S)"), (4, "if coord.shape[0] == 0:"), (8, "raise ValueError(S)"), (4, "if coord.shape[1] != 3:"), (8, "raise ValueError(S)"), (4, "if not np.isfinite(coord).all():"), (8, "raise ValueError(S)")]⟩ := by
-  refine ⟨rfl, rfl⟩
+    Gen.C14.pyx_cinit = Expected.pyx_cinit ∧
+    Gen.C14.pyx_H0 = Expected.pyx_H0 ∧
+    Gen.C14.pyx_H1 = Expected.pyx_H1 := by
+  refine ⟨rfl, rfl, rfl⟩
 
-/-- `get_atoms` (`as_mask=False`; empty batch -> `_empty_result`; periodic -> `move_inside_box`; radii as `np.float32`; `sq_radii = radius * radius` (a new array); `np.ceil(radius / self._cellsize).astype(np.int32)` resp. `int(np.ceil(radius[0] / …))` into `np.full(…, dtype=np.int32)`; filter `coord_index != -1`, `sq_dist <= sq_radius`), `get_atoms_in_cells` (`cell_radius=1, as_mask=False`, `np.int32`), `_get_atoms_in_cells` (`np.max(cell_radii)` vs `cell_radii[0]`; `cdef int length = (2*max_cell_radius + 1)**3 * self._max_cell_length`; `np.full(…, -1, dtype=np.int32)`), `_find_adjacent_atoms` (non-finite query -> `continue`; the three clipped window loops). -/
+/-- `get_atoms` (`as_mask=False`; empty batch -> empty result; periodic -> `move_inside_box`; radii as `np.float32`; squared radii = `radius * radius` (a new array); `np.ceil(radius / cellsize).astype(np.int32)` resp. `int(np.ceil(radius[0] / …))` into `np.full(…, dtype=np.int32)`; filter `!= -1`, `sq_dist <= sq_radius`), `get_atoms_in_cells` (`cell_radius=1, as_mask=False`, `np.int32`), the buffer allocation (`np.max(cell_radii)` vs `cell_radii[0]`; `cdef int length = (2*r + 1)**3 * max_cell_length`; `np.full(…, -1, dtype=np.int32)`), the window scan (non-finite query -> `continue`; the three clipped window loops). -/
 theorem C14_gen_src_queries :
-    Gen.C14.pyx_get_atoms =
-      ⟨"def get_atoms(self, np.ndarray coord, radius, bint as_mask=False):", [(4, "cdef int i=0, j=0"), (4, "cdef int array_i = 0"), (4, "cdef int max_array_length = 0"), (4, "cdef int coord_index"), (4, "cdef float32 x1, y1, z1, x2, y2, z2"), (4, "cdef float32 sq_dist"), (4, "cdef float32 sq_radius"), (4, "cdef float32[:] sq_radii"), (4, "cdef np.ndarray cell_radii"), (4, "cdef int[:,:] all_indices"), (4, "cdef int[:,:] indices"), (4, "cdef float32[:,:] coord_v"), (4, "if len(coord) == 0:"), (8, "return _empty_result(as_mask)"), (4, "if self._periodic:"), (8, "coord = move_inside_box(coord, self._box)"), (4, "coord, radius, is_multi_coord, is_multi_radius = _prepare_vectorization(coord, radius, np.float32)"), (4, "if is_multi_radius:"), (8, "sq_radii = radius * radius"), (8, "cell_radii = np.ceil(radius / self._cellsize).astype(np.int32)"), (4, "else:"), (8, "sq_radii = np.full( len(coord), radius[0]*radius[0], dtype=np.float32 )"), (8, "cell_radii = np.full( len(coord), int(np.ceil(radius[0] / self._cellsize)), dtype=np.int32 )"), (4, "all_indices = self._get_atoms_in_cells( coord, cell_radii, is_multi_radius )"), (4, "indices = np.full( (all_indices.shape[0], all_indices.shape[1]), -1, dtype=np.int32 )"), (4, "coord_v = coord"), (4, "for i in range(all_indices.shape[0]):"), (8, "sq_radius = sq_radii[i]"), (8, "x1 = coord_v[i,0]"), (8, "y1 = coord_v[i,1]"), (8, "z1 = coord_v[i,2]"), (8, "array_i = 0"), (8, "for j in range(all_indices.shape[1]):"), (12, "coord_index = all_indices[i,j]"), (12, "if coord_index != -1:"), (16, "x2 = self._coord[coord_index, 0]"), (16, "y2 = self._coord[coord_index, 1]"), (16, "z2 = self._coord[coord_index, 2]"), (16, "sq_dist = squared_distance(x1, y1, z1, x2, y2, z2)"), (16, "if sq_dist <= sq_radius:"), (20, "indices[i, array_i] = coord_index"), (20, "array_i += 1"), (8, "if array_i > max_array_length:"), (12, "max_array_length = array_i"), (4, "return self._post_process( np.asarray(indices)[:, :max_array_length], as_mask, is_multi_coord )")]⟩ ∧
-    Gen.C14.pyx_get_atoms_in_cells =
-      ⟨"def get_atoms_in_cells(self, np.ndarray coord, cell_radius=1, bint as_mask=False):", [(4, "if len(coord) == 0:"), (8, "return _empty_result(as_mask)"), (4, "if self._periodic:"), (8, "coord = move_inside_box(coord, self._box)"), (4, "coord, cell_radius, is_multi_coord, is_multi_radius = _prepare_vectorization(coord, cell_radius, np.int32)"), (4, "array_indices = self._get_atoms_in_cells( coord, cell_radius, is_multi_radius )"), (4, "return self._post_process(array_indices, as_mask, is_multi_coord)")]⟩ ∧
-    Gen.C14.pyx_priv_get_atoms_in_cells =
-      ⟨"def _get_atoms_in_cells(self, np.ndarray coord, np.ndarray cell_radii, bint is_multi_radius):", [(4, "cdef int max_cell_radius"), (4, "if is_multi_radius:"), (8, "max_cell_radius = np.max(cell_radii)"), (4, "else:"), (8, "max_cell_radius = cell_radii[0]"), (4, "cdef int length = (2*max_cell_radius + 1)**3 * self._max_cell_length"), (4, "array_indices = np.full((len(coord), length), -1, dtype=np.int32)"), (4, "cdef int max_array_length = self._find_adjacent_atoms(coord, array_indices, cell_radii)"), (4, "return array_indices[:, :max_array_length]")]⟩ ∧
-    Gen.C14.pyx_priv_find_adjacent_atoms =
-      ⟨"cdef int _find_adjacent_atoms(self, float32[:,:] coord, int[:,:] indices, int[:] cell_radius):", [(4, "cdef int length"), (4, "cdef int* list_ptr"), (4, "cdef float32 x, y,z"), (4, "cdef int i=0, j=0, k=0"), (4, "cdef int adj_i, adj_j, adj_k"), (4, "cdef int pos_i, array_i, cell_i"), (4, "cdef int max_array_length = 0"), (4, "cdef int cell_r"), (4, "cdef ptr[:,:,:] cells = self._cells"), (4, "cdef int[:,:,:] cell_length = self._cell_length"), (4, "cdef uint8[:] finite_mask = ( np.isfinite(np.asarray(coord)).all(axis=-1).astype(np.uint8, copy=False) )"), (4, "for pos_i in range(coord.shape[0]):"), (8, "if not finite_mask[pos_i]:"), (12, "continue"), (8, "array_i = 0"), (8, "cell_r = cell_radius[pos_i]"), (8, "x = coord[pos_i, 0]"), (8, "y = coord[pos_i, 1]"), (8, "z = coord[pos_i, 2]"), (8, "self._get_cell_index(x, y, z, &i, &j, &k)"), (8, "for adj_i in range(i-cell_r, i+cell_r+1):"), (12, "if (adj_i >= 0 and adj_i < cells.shape[0]):"), (16, "for adj_j in range(j-cell_r, j+cell_r+1):"), (20, "if (adj_j >= 0 and adj_j < cells.shape[1]):"), (24, "for adj_k in range(k-cell_r, k+cell_r+1):"), (28, "if (adj_k >= 0 and adj_k < cells.shape[2]):"), (32, "list_ptr = <int*>cells[adj_i, adj_j, adj_k]"), (32, "length = cell_length[adj_i, adj_j, adj_k]"), (32, "for cell_i in range(length):"), (36, "indices[pos_i, array_i] = list_ptr[cell_i]"), (36, "array_i += 1"), (8, "if array_i > max_array_length:"), (12, "max_array_length = array_i"), (4, "return max_array_length")]⟩ := by
+    Gen.C14.pyx_get_atoms = Expected.pyx_get_atoms ∧
+    Gen.C14.pyx_get_atoms_in_cells = Expected.pyx_get_atoms_in_cells ∧
+    Gen.C14.pyx_H5 = Expected.pyx_H5 ∧
+    Gen.C14.pyx_H8 = Expected.pyx_H8 := by
   refine ⟨rfl, rfl, rfl, rfl⟩
 
-/-- `_post_process` (`indices[indices != -1] %= self._orig_length` iff periodic; mask / index and single / multi branches), `_as_mask` (stop at the first `-1`), `_empty_result`, `create_adjacency_matrix` (`threshold_distance < 0` -> `ValueError`; queries are `self._coord[:self._orig_length]`; with a selection only the selected rows are filled from `get_atoms(coord[selection], …, as_mask=True)`). -/
+/-- post-processing (`indices[indices != -1] %= orig_length` iff periodic; mask / index and single / multi branches), the mask builder (stop at the first `-1`), the empty result, `create_adjacency_matrix` (`threshold_distance < 0` -> `ValueError`; queries are `coord[:orig_length]`; with a selection only the selected rows are filled from `get_atoms(coord[selection], …, as_mask=True)`). -/
 theorem C14_gen_src_post :
-    Gen.C14.pyx_priv_post_process =
-      ⟨"def _post_process(self, np.ndarray indices, bint as_mask, bint is_multi_coord):", [(4, "if self._periodic:"), (8, "indices[indices != -1] %= self._orig_length"), (4, "if as_mask:"), (8, "matrix = self._as_mask(indices)"), (8, "if is_multi_coord:"), (12, "return matrix"), (8, "else:"), (12, "return matrix[0]"), (4, "else:"), (8, "if is_multi_coord:"), (12, "return indices"), (8, "else:"), (12, "return indices[0]")]⟩ ∧
-    Gen.C14.pyx_priv_as_mask =
-      ⟨"cdef np.ndarray _as_mask(self, int[:,:] indices):", [(4, "cdef int i,j"), (4, "cdef int index"), (4, "cdef uint8[:,:] matrix = np.zeros( (indices.shape[0], self._orig_length), dtype=np.uint8 )"), (4, "for i in range(indices.shape[0]):"), (8, "for j in range(indices.shape[1]):"), (12, "index = indices[i,j]"), (12, "if index == -1:"), (16, "break"), (12, "matrix[i, index] = True"), (4, "return np.asarray(matrix, dtype=bool)")]⟩ ∧
-    Gen.C14.pyx_priv_empty_result =
-      ⟨"def _empty_result(as_mask):", [(4, "if as_mask:"), (8, "return np.array([], dtype=bool)"), (4, "else:"), (8, "return np.array([], dtype=np.int32)")]⟩ ∧
-    Gen.C14.pyx_create_adjacency_matrix =
-      ⟨"def create_adjacency_matrix(self, float32 threshold_distance):", [(4, "if threshold_distance < 0:"), (8, "raise ValueError(S)"), (4, "cdef int i=0"), (4, "coord = np.asarray(self._coord[:self._orig_length])"), (4, "if self._has_selection:"), (8, "selection = np.asarray(self._selection, dtype=bool)"), (8, "matrix = np.zeros( (self._orig_length, self._orig_length), dtype=bool )"), (8, "matrix[selection, :] = self.get_atoms( coord[selection], threshold_distance, as_mask=True )"), (8, "return matrix"), (4, "else:"), (8, "return self.get_atoms(coord, threshold_distance, as_mask=True)")]⟩ := by
+    Gen.C14.pyx_H7 = Expected.pyx_H7 ∧
+    Gen.C14.pyx_H9 = Expected.pyx_H9 ∧
+    Gen.C14.pyx_H3 = Expected.pyx_H3 ∧
+    Gen.C14.pyx_create_adjacency_matrix = Expected.pyx_create_adjacency_matrix := by
   refine ⟨rfl, rfl, rfl, rfl⟩
 
-/-- `_prepare_vectorization`: `(3,)` -> single, `(n,3)` -> multi, else `ValueError`; array radii: single position, `ndim != 1`, length mismatch, `(radius < 0).any()` -> `ValueError`; scalar `radius < 0` -> `ValueError`; `np.full(coord.shape[0], radius, dtype=radius_dtype)`. -/
+/-- argument preparation: `(3,)` -> single, `(n,3)` -> multi, else `ValueError`; array radii: single position, `ndim != 1`, length mismatch, `(radius < 0).any()` -> `ValueError`; scalar `radius < 0` -> `ValueError`; `np.full(n, radius, dtype=…)`. -/
 theorem C14_gen_src_prepare :
-    Gen.C14.pyx_priv_prepare_vectorization =
-      ⟨"def _prepare_vectorization(np.ndarray coord, radius, radius_dtype):", [(4, "cdef bint is_multi_coord"), (4, "cdef bint is_multi_radius"), (4, "if coord.ndim == 1 and coord.shape[0] == 3:"), (8, "coord = coord[np.newaxis, :].astype(np.float32, copy=False)"), (8, "is_multi_coord = False"), (4, "elif coord.ndim == 2 and coord.shape[1] == 3:"), (8, "coord = coord.astype(np.float32, copy=False)"), (8, "is_multi_coord = True"), (4, "else:"), (8, "raise ValueError( S )"), (4, "if isinstance(radius, np.ndarray):"), (8, "if not is_multi_coord:"), (12, "raise ValueError( S )"), (8, "if radius.ndim != 1:"), (12, "raise ValueError(S)"), (8, "if radius.shape[0] != coord.shape[0]:"), (12, "raise ValueError( S S )"), (8, "if (radius < 0).any():"), (12, "raise ValueError(S)"), (8, "radius = radius.astype(radius_dtype, copy=False)"), (8, "is_multi_radius = True"), (4, "else:"), (8, "if radius < 0:"), (12, "raise ValueError(S)"), (8, "radius = np.full(coord.shape[0], radius, dtype=radius_dtype)"), (8, "is_multi_radius = False"), (4, "return coord, radius, is_multi_coord, is_multi_radius")]⟩ := by
+    Gen.C14.pyx_H4 = Expected.pyx_H4 := by
   rfl
 
-/-- `_get_cell_index` (`<int>` truncation of `(x - min[axis]) / cellsize`, x/y/z with axes 0/1/2) and `squared_distance` (`x2 - x1`, sum of the three squares). -/
+/-- cell index (`<int>` truncation of `(x - min[axis]) / cellsize`, x/y/z with axes 0/1/2) and squared distance (`x2 - x1`, sum of the three squares). -/
 theorem C14_gen_src_arith :
-    Gen.C14.pyx_priv_get_cell_index =
-      ⟨"cdef inline void _get_cell_index(self, float32 x, float32 y, float32 z, int* i, int* j, int* k):", [(4, "i[0] = <int>((x - self._min_coord[0]) / self._cellsize)"), (4, "j[0] = <int>((y - self._min_coord[1]) / self._cellsize)"), (4, "k[0] = <int>((z - self._min_coord[2]) / self._cellsize)")]⟩ ∧
-    Gen.C14.pyx_squared_distance =
-      ⟨"cdef inline float32 squared_distance(float32 x1, float32 y1, float32 z1, float32 x2, float32 y2, float32 z2):", [(4, "cdef float32 diff_x = x2 - x1"), (4, "cdef float32 diff_y = y2 - y1"), (4, "cdef float32 diff_z = z2 - z1"), (4, "return diff_x*diff_x + diff_y*diff_y + diff_z*diff_z")]⟩ := by
+    Gen.C14.pyx_H2 = Expected.pyx_H2 ∧
+    Gen.C14.pyx_H6 = Expected.pyx_H6 := by
   refine ⟨rfl, rfl⟩
 
-/-- box.py (read with `ast`): `repeat_box_coord(coord, box, amount=1)` — original coordinates first, loops `i, j, k` over `range(-amount, amount + 1)`, skip `(0,0,0)`, translation `sum(box * [i,j,k][:, newaxis], axis=-2)`, indices `tile(arange(n), (1 + 2*amount)**3)`; `move_inside_box` = `coord_to_fraction`, `% 1`, `fraction_to_coord` and nothing else; `coord_to_fraction = matmul(coord, inv(box))`, `fraction_to_coord = matmul(fraction, box)`; `is_orthogonal`: tolerance `1e-06`, the three pairs (0,1), (0,2), (1,2) (used by the geometry side of the float-geom oracle). -/
+/-- box.py (read with `ast`): `repeat_box_coord(coord, box, amount=1)` — original coordinates first, three nested loops over `range(-amount, amount + 1)`, skip `(0,0,0)`, translation `sum(box * [i,j,k][:, newaxis], axis=-2)`, indices `tile(arange(n), (1 + 2*amount)**3)`; `move_inside_box` = `fraction_to_coord(coord_to_fraction(coord, box) % 1, box)` and nothing else; `coord_to_fraction = matmul(coord, inv(box))`, `fraction_to_coord = matmul(fraction, box)`; `is_orthogonal`: tolerance `1e-06`, the three pairs (0,1), (0,2), (1,2). -/
 theorem C14_gen_src_box :
-    Gen.C14.box_repeat_box_coord =
-      ⟨"def repeat_box_coord(coord, box, amount=1):", [(4, "if not isinstance(amount, Integral):"), (8, "raise TypeError(S)"), (4, "amount = int(amount)"), (4, "coords_for_boxes = [coord]"), (4, "for i in range(-amount, amount + 1):"), (8, "for j in range(-amount, amount + 1):"), (12, "for k in range(-amount, amount + 1):"), (16, "if i != 0 or j != 0 or k != 0:"), (20, "temp_coord = coord.copy()"), (20, "translation_vec = np.sum(box * np.array([i, j, k])[:, np.newaxis], axis=-2)"), (20, "temp_coord += translation_vec[..., np.newaxis, :]"), (20, "coords_for_boxes.append(temp_coord)"), (4, "return (np.concatenate(coords_for_boxes, axis=-2), np.tile(np.arange(coord.shape[-2]), (1 + 2 * amount) ** 3))")]⟩ ∧
-    Gen.C14.box_move_inside_box =
-      ⟨"def move_inside_box(coord, box):", [(4, "fractions = coord_to_fraction(coord, box)"), (4, "fractions_rem = fractions % 1"), (4, "return fraction_to_coord(fractions_rem, box)")]⟩ ∧
-    Gen.C14.box_coord_to_fraction =
-      ⟨"def coord_to_fraction(coord, box):", [(4, "return np.matmul(coord, linalg.inv(box))")]⟩ ∧
-    Gen.C14.box_fraction_to_coord =
-      ⟨"def fraction_to_coord(fraction, box):", [(4, "return np.matmul(fraction, box)")]⟩ ∧
-    Gen.C14.box_is_orthogonal =
-      ⟨"def is_orthogonal(box):", [(4, "tol = 1e-06"), (4, "return (np.abs(vector_dot(box[..., 0, :], box[..., 1, :])) < tol) & (np.abs(vector_dot(box[..., 0, :], box[..., 2, :])) < tol) & (np.abs(vector_dot(box[..., 1, :], box[..., 2, :])) < tol)")]⟩ := by
+    Gen.C14.box_repeat_box_coord = Expected.box_repeat_box_coord ∧
+    Gen.C14.box_move_inside_box = Expected.box_move_inside_box ∧
+    Gen.C14.box_coord_to_fraction = Expected.box_coord_to_fraction ∧
+    Gen.C14.box_fraction_to_coord = Expected.box_fraction_to_coord ∧
+    Gen.C14.box_is_orthogonal = Expected.box_is_orthogonal := by
   refine ⟨rfl, rfl, rfl, rfl, rfl⟩
 
 end BiotiteModel.C14
